@@ -224,13 +224,17 @@ fn check_type(ty: SignType, name: &str, expect: Option<(u8, u8, u32, u32)>, rep:
 /// Decoding an arbitrary byte string: total, length-strict, accepts exactly the supported (family, id) pairs.
 fn check_decode(bytes: &[u8], rep: &mut Report) {
     rep.case(Some(fnv(bytes)));
-    rep.seen("lengths", bytes.len() as u64);
+    if bytes.len() <= 40 {
+        rep.seen("lengths", bytes.len() as u64);
+    } else {
+        rep.seen("long_lengths", bytes.len() as u64);
+    }
     let r = catch(|| SignType::from_bytes(bytes).map_err(|e| match e {
         SignTypeError::WrongConfigLength { expected, actual } => format!("WrongConfigLength({},{})", expected, actual),
         SignTypeError::UnknownConfig { bytes: b } => format!("UnknownConfig({})", hex(&b)),
         other => format!("Other({:?})", other),
     }));
-    let sig = hex(bytes);
+    let sig = if bytes.len() <= 64 { hex(bytes) } else { format!("{}..({} bytes)", hex(&bytes[..32]), bytes.len()) };
     let fail = |rep: &mut Report, class: &str, what: String| {
         rep.violation(MON_D, class, &sig, format!("from_bytes({}): {}", sig, what), J::obj(vec![("bytes", J::hex(bytes)), ("observed", J::s(what.clone()))]));
     };
@@ -305,6 +309,15 @@ pub fn run(ctx: &Ctx) -> Outcome {
             }
         } else {
             let len = shard - 257;
+            if len == 16 {
+                // genuine blocks followed by more bytes, at lengths that are 16 again once narrowed to 8 / 16 / 24 bits
+                for t in TYPES.iter() {
+                    for total in [16 + 256usize, 16 + 512, 16 + 65_536, 16 + (1 << 24), 256, 65_536] {
+                        let b: Vec<u8> = t.ty.to_bytes().iter().copied().chain(std::iter::repeat(0)).take(total).collect();
+                        check_decode(&b, rep);
+                    }
+                }
+            }
             let mut rng = ctx.rng("len", len as u64);
             let n = if len == 16 { fills * 4 } else { fills };
             for k in 0..n {
@@ -331,6 +344,7 @@ pub fn run(ctx: &Ctx) -> Outcome {
         floor("11/11 supported types checked", report.get("types_checked") == 11, report.get("types_checked")),
         floor("all 65536 (family, id) pairs swept", report.get("pairs_swept") == 65_536, report.get("pairs_swept")),
         floor("every length 0..=40", report.set_len("lengths") == 41, report.set_len("lengths")),
+        floor("lengths that are 16 modulo 2^8 / 2^16 / 2^24", report.set_len("long_lengths") == 6, report.set_len("long_lengths")),
         floor("listed pairs accepted and unlisted pairs rejected", report.get("accepted_listed") >= 11 * 8 && report.get("rejected_unlisted") > 500_000, report.get("accepted_listed")),
         floor("an unsupported block after a supported one, for every type", report.get("virtual_sign_unsupported_block_after_supported") >= 44, report.get("virtual_sign_unsupported_block_after_supported")),
         floor("virtual sign reconfigured from every other type (11 x 10 x 2 histories)", report.get("virtual_sign_reconfigurations") == 220, report.get("virtual_sign_reconfigurations")),
